@@ -7,8 +7,11 @@
    model (Model.v: parse stage = the ElementTree queries, build stage = everything that can fail or
    constructs) run on the XML trees Def.to_tree renders for the definition, served by Def.world.
    mirror_dev = "the object graph mirrors the definition one-to-one" (Spec.v).  The oracles (urljoin,
-   float(), non-ASCII lower()) are universally quantified: no law is assumed beyond what wf_dev checks on
-   the URLs of the input itself. *)
+   float(), non-ASCII lower()) are universally quantified: no law is assumed beyond what wf_desc checks on
+   the URLs of the input itself.  Domain (wf_desc): conformant services, URLs of either style, and one
+   document per SCPD URL - services may share an SCPD URL (WANIPConnection / WANPPPConnection on real
+   gateways) provided they have the same state variables, actions and corruption marker, so that the one
+   document served there describes each of them; no SCPD URL is the description URL. *)
 From Coq Require Import List Bool NArith ZArith Permutation.
 From AUC Require Import Prelude.PyStr C08.TypesDef C08.Model Gen.Types
   C05.Xml C05.Names C05.Model C05.Def C05.Spec C05.Lemmas C05.Parse C05.Expected C05.Main C05.Witness.
@@ -25,7 +28,7 @@ Theorem C05_faithful_partial :
   forall (urljoin : pystr -> pystr -> pystr) (float_of_str : pystr -> option fl) (lower_ext : N -> N)
          (r : rendering), (forall l, Permutation (r_perm r l) l) ->
   forall (strict : bool) (probes : list pyval) (base : pystr) (d : device_def),
-    wf_dev urljoin float_of_str lower_ext base d = true -> any_corrupt d = false ->
+    wf_desc urljoin float_of_str lower_ext base d = true -> any_corrupt d = false ->
     kf_dup_device_types d = false -> kf_dup_service_types d = false ->
     exists o, run_def urljoin float_of_str lower_ext r strict probes base d = FOk o /\
               mirror_dev urljoin float_of_str lower_ext strict probes base d o = true.
@@ -38,7 +41,7 @@ Theorem C05_faithful_refuted_devices :
   exists (urljoin : pystr -> pystr -> pystr) (float_of_str : pystr -> option fl) (lower_ext : N -> N)
          (r : rendering) (strict : bool) (probes : list pyval) (base : pystr) (d : device_def),
     (forall l, Permutation (r_perm r l) l) /\
-    wf_dev urljoin float_of_str lower_ext base d = true /\ any_corrupt d = false /\
+    wf_desc urljoin float_of_str lower_ext base d = true /\ any_corrupt d = false /\
     kf_dup_service_types d = false /\
     c_mirrors urljoin float_of_str lower_ext strict probes base d
               (run_def urljoin float_of_str lower_ext r strict probes base d) = false.
@@ -53,7 +56,7 @@ Theorem C05_faithful_refuted_services :
   exists (urljoin : pystr -> pystr -> pystr) (float_of_str : pystr -> option fl) (lower_ext : N -> N)
          (r : rendering) (strict : bool) (probes : list pyval) (base : pystr) (d : device_def),
     (forall l, Permutation (r_perm r l) l) /\
-    wf_dev urljoin float_of_str lower_ext base d = true /\ any_corrupt d = false /\
+    wf_desc urljoin float_of_str lower_ext base d = true /\ any_corrupt d = false /\
     kf_dup_device_types d = false /\
     c_mirrors urljoin float_of_str lower_ext strict probes base d
               (run_def urljoin float_of_str lower_ext r strict probes base d) = false.
@@ -70,7 +73,7 @@ Theorem C05_strict_refuses :
   forall (urljoin : pystr -> pystr -> pystr) (float_of_str : pystr -> option fl) (lower_ext : N -> N)
          (r : rendering), (forall l, Permutation (r_perm r l) l) ->
   forall (strict : bool) (probes : list pyval) (base : pystr) (d : device_def),
-    wf_dev urljoin float_of_str lower_ext base d = true -> strict = true -> any_corrupt d = true ->
+    wf_desc urljoin float_of_str lower_ext base d = true -> strict = true -> any_corrupt d = true ->
     exists e, run_def urljoin float_of_str lower_ext r strict probes base d = FRaise e /\ lib_error e = true.
 Proof. exact strict_refuses. Qed.
 Print Assumptions C05_strict_refuses.
@@ -83,7 +86,7 @@ Theorem C05_nonstrict_degrades_partial :
   forall (urljoin : pystr -> pystr -> pystr) (float_of_str : pystr -> option fl) (lower_ext : N -> N)
          (r : rendering), (forall l, Permutation (r_perm r l) l) ->
   forall (probes : list pyval) (base : pystr) (d : device_def),
-    wf_dev urljoin float_of_str lower_ext base d = true ->
+    wf_desc urljoin float_of_str lower_ext base d = true ->
     kf_dup_device_types d = false -> kf_dup_service_types d = false ->
     exists o, run_def urljoin float_of_str lower_ext r false probes base d = FOk o /\
               mirror_dev urljoin float_of_str lower_ext false probes base d o = true.
@@ -96,7 +99,7 @@ Theorem C05_clause_mirrors_partial :
   forall (urljoin : pystr -> pystr -> pystr) (float_of_str : pystr -> option fl) (lower_ext : N -> N)
          (r : rendering), (forall l, Permutation (r_perm r l) l) ->
   forall (strict : bool) (probes : list pyval) (base : pystr) (d : device_def),
-    wf_dev urljoin float_of_str lower_ext base d = true ->
+    wf_desc urljoin float_of_str lower_ext base d = true ->
     kf_dup_device_types d = false -> kf_dup_service_types d = false ->
     c_mirrors urljoin float_of_str lower_ext strict probes base d
               (run_def urljoin float_of_str lower_ext r strict probes base d) = true.
@@ -107,10 +110,26 @@ Theorem C05_clause_strict_refuses :
   forall (urljoin : pystr -> pystr -> pystr) (float_of_str : pystr -> option fl) (lower_ext : N -> N)
          (r : rendering), (forall l, Permutation (r_perm r l) l) ->
   forall (strict : bool) (probes : list pyval) (base : pystr) (d : device_def),
-    wf_dev urljoin float_of_str lower_ext base d = true ->
+    wf_desc urljoin float_of_str lower_ext base d = true ->
     c_strict_refuses strict d (run_def urljoin float_of_str lower_ext r strict probes base d) = true.
 Proof. exact c_strict_refuses_holds. Qed.
 Print Assumptions C05_clause_strict_refuses.
+
+(* The domain is a widening of "every service has its own SCPD URL": with pairwise distinct SCPD URLs the
+   sharing condition is void, and wf_dev (the sub-domain C14 uses) is inside wf_desc. *)
+Theorem C05_domain_contains_distinct_urls :
+  forall (urljoin : pystr -> pystr -> pystr) (float_of_str : pystr -> option fl) (lower_ext : N -> N)
+         (base : pystr) (d : device_def),
+    (nodupb (map (scpd_url urljoin base) (all_services d)) = true ->
+     wf_desc urljoin float_of_str lower_ext base d =
+     wf_tree urljoin float_of_str lower_ext base d &&
+     negb (existsb (str_eqb base) (map (scpd_url urljoin base) (all_services d)))) /\
+    (wf_dev urljoin float_of_str lower_ext base d = true -> wf_desc urljoin float_of_str lower_ext base d = true).
+Proof.
+  intros uj fs le base d. split; [|apply wf_dev_desc].
+  intros H. unfold wf_desc. now rewrite distinct_urls_wf_world.
+Qed.
+Print Assumptions C05_domain_contains_distinct_urls.
 
 (* Every rendering the harness can name (identity, reversal, rotations of the child order) satisfies the
    premise of the theorems above: the model_run of the correspondence check is an instance. *)
@@ -134,7 +153,7 @@ Print Assumptions C05_parse_render.
    indentation, padded names, empty lists rendered); with one service document lacking its state table
    it is refused in strict mode and degrades in non-strict mode. *)
 Example C05_domain_inhabited :
-  wf_dev urljoin0 fos0 lext0 base0 ex_full = true /\
+  wf_desc urljoin0 fos0 lext0 base0 ex_full = true /\
   kf_dup_device_types ex_full = false /\ kf_dup_service_types ex_full = false /\ any_corrupt ex_full = false /\
   length (all_services ex_full) = 3%nat /\
   c_mirrors urljoin0 fos0 lext0 true probes0 base0 ex_full (run_def urljoin0 fos0 lext0 fancy true probes0 base0 ex_full) = true /\
@@ -143,10 +162,32 @@ Example C05_domain_inhabited :
 Proof. vm_compute. repeat split; try reflexivity. eexists; reflexivity. Qed.
 
 Example C05_corruption_inhabited :
-  wf_dev urljoin0 fos0 lext0 base0 ex_corrupt = true /\ any_corrupt ex_corrupt = true /\
+  wf_desc urljoin0 fos0 lext0 base0 ex_corrupt = true /\ any_corrupt ex_corrupt = true /\
   run_def urljoin0 fos0 lext0 fancy true probes0 base0 ex_corrupt = FRaise XmlContentError /\
   c_mirrors urljoin0 fos0 lext0 false probes0 base0 ex_corrupt (run_def urljoin0 fos0 lext0 fancy false probes0 base0 ex_corrupt) = true /\
   (exists o, run_def urljoin0 fos0 lext0 fancy false probes0 base0 ex_corrupt = FOk o).
+Proof. vm_compute. repeat split; try reflexivity. eexists; reflexivity. Qed.
+
+(* Shared SCPD: a gateway whose WANIPConnection and WANPPPConnection (and the WANIPConnection of its embedded
+   device, through the absolute spelling) name ONE service description URL is in the domain although its
+   SCPD URLs are not pairwise distinct, outside both guards, and is mirrored in both modes: each of the three
+   services gets the variables and the action of the one document.  When the shared document lacks its
+   state table, strict mode refuses and non-strict mode degrades all three.  Two services that name one
+   URL but differ in their actions are outside the domain. *)
+Example C05_shared_scpd_inhabited :
+  wf_desc urljoin0 fos0 lext0 base0 ex_shared = true /\
+  nodupb (map (scpd_url urljoin0 base0) (all_services ex_shared)) = false /\
+  wf_dev urljoin0 fos0 lext0 base0 ex_shared = false /\
+  length (all_services ex_shared) = 3%nat /\
+  kf_dup_device_types ex_shared = false /\ kf_dup_service_types ex_shared = false /\ any_corrupt ex_shared = false /\
+  c_mirrors urljoin0 fos0 lext0 true probes0 base0 ex_shared (run_def urljoin0 fos0 lext0 fancy true probes0 base0 ex_shared) = true /\
+  c_mirrors urljoin0 fos0 lext0 false probes0 base0 ex_shared (run_def urljoin0 fos0 lext0 fancy false probes0 base0 ex_shared) = true /\
+  (exists o, run_def urljoin0 fos0 lext0 fancy true probes0 base0 ex_shared = FOk o) /\
+  wf_desc urljoin0 fos0 lext0 base0 (ex_shared_with CNoTable) = true /\
+  run_def urljoin0 fos0 lext0 fancy true probes0 base0 (ex_shared_with CNoTable) = FRaise XmlContentError /\
+  c_mirrors urljoin0 fos0 lext0 false probes0 base0 (ex_shared_with CNoTable)
+            (run_def urljoin0 fos0 lext0 fancy false probes0 base0 (ex_shared_with CNoTable)) = true /\
+  wf_desc urljoin0 fos0 lext0 base0 ex_shared_bad = false.
 Proof. vm_compute. repeat split; try reflexivity. eexists; reflexivity. Qed.
 
 (* The generated type table still supports every one of the 26 data types the statement counts, so
